@@ -98,6 +98,9 @@ Clauses(fam, a) ==
                                                       IF a.modes[k] = 0 - 1 THEN a.R ELSE a.rows[a.modes[k] + 1] * a.R])]
     [] fam = "k_mode_arg" ->    \* a: N (number of modes), op (which single-mode argument), mode
          [mode_in_range |-> a.mode \in 0..(a.N - 1)]
+    [] fam = "k_extract" ->     \* a: R (number of components), idx (components to keep), form (how the argument is spelled)
+         [count_in_range |-> Len(a.idx) \in 1..a.R,
+          in_range       |-> \A k \in 1..Len(a.idx) : a.idx[k] \in 0..(a.R - 1)]
     [] fam = "tt_reconstruct" -> \* a: N, modes (the modes that are sampled)
          [modes_in_range |-> \A k \in 1..Len(a.modes) : a.modes[k] \in 0..(a.N - 1),
           modes_distinct |-> IsInj(a.modes)]
